@@ -227,6 +227,10 @@ func (c *pkGen) genSend(s *pkSnap) string {
 	if c.g.Chance(4) {
 		amt = 0
 	}
+	if c.g.Chance(7) {
+		c.r.Hit("send/receiver-is-a-blocked-hub-address")
+		return fmt.Sprintf("sendblk %s c%d den=%s amt=%d", a, ci, den, amt)
+	}
 	return fmt.Sprintf("send %s c%d den=%s amt=%d", a, ci, den, amt)
 }
 
